@@ -109,10 +109,9 @@ def check(ctx):
         ctx.expect(wt.startswith("Value::primitive(match(P0){"), "C12.2", "width/wrapper", pf["sp"], "result = Value::primitive(<table>)", wt[:80])
     # fields
     expect_fn(ctx, "C12.3", "fields", "scale_value::fields_type_example",
-              "match((Iterator::all(P0,|1|{Option::is_some(C1_0.0)}),Iterator::all(P0,|1|{Option::is_none(C1_0.0)}))){(true,true)=>Ok(Composite::Unnamed(Vec::new()));"
-              "(true,false)=>Ok(Composite::named(Iterator::collect(Iterator::map(P0,|1|{Ok((Option::unwrap(C1_0.0),Transformer::resolve(P1,C1_0.1)?))}))?));"
-              "(false,true)=>Ok(Composite::unnamed(Iterator::collect(Iterator::map(P0,|1|{Transformer::resolve(P1,C1_0.1)}))?));"
-              "(false,false)=>Err(%s)}" % ANY,
+              "if(Iterator::all(P0,|1|{Option::is_none(C1_0.0)})){Ok(if(Iterator::all(P0,|1|{Option::is_some(C1_0.0)})){Composite::Unnamed(Vec::new())}else{"
+              "Composite::unnamed(Iterator::collect(Iterator::map(P0,|1|{Transformer::resolve(P1,C1_0.1)}))?)})}else{if(Iterator::all(P0,|1|{Option::is_some(C1_0.0)})){"
+              "Ok(Composite::named(Iterator::collect(Iterator::map(P0,|1|{Ok((Option::unwrap(C1_0.0),Transformer::resolve(P1,C1_0.1)?))}))?))}else{Err(%s)}}" % ANY,
               "no fields -> empty unnamed; all named -> named composite of (name, example of id) in order; all unnamed -> unnamed composite in order; mixed -> Err", DR.D)
     DR.seed_and_rng(ctx, "C12.4", M)
     DR.transformer_guard(ctx, "C12.5", M)
